@@ -19,8 +19,8 @@ RULE = ("one case = one generated real directory tree (depth <= 5 below the case
         "projects made by signac.init_project (some with non-canonical config text, project document, state point cache, "
         "or without workspace directory), jobs made by open_job().init(), projects nested in job directories (the job "
         "directory itself or a sub-directory) and in plain sub-directories, job directories that are symbolic links "
-        "(relative / absolute target) to a directory stored elsewhere, stray links, files; a fraction of trees leaves the "
-        "layout hypothesis (id-like names outside workspaces, 33-hex names, legacy signac.rc projects, foreign schema "
+        "(relative / absolute target) to a directory stored elsewhere, stray links, files; names that merely CONTAIN 32 hex characters (64/40/33-hex, run_<md5>, <id>.bak) as sub-directories of jobs, plain directories and projects and as queried leaves (inside the quantifier: they are not 32-hex-named); a fraction of trees leaves the "
+        "layout hypothesis (exact 32-hex names outside workspaces, legacy signac.rc projects, foreign schema "
         "versions) and is compared with the model only.  Every directory of the tree (also through links), plus "
         "non-existent paths, is queried with get_project(search=True/False), get_job, init_project as absolute path, "
         "relative to two other working directories (os.chdir in a forked child), as '.', with path=None, and in the raw "
@@ -31,7 +31,7 @@ TRUSTED = [
     "kernel path resolution is modelled (walk: '..' physical, links followed, 600 steps of fuel) and compared on every query",
     "no project configuration exists in the ancestors of the scratch directory (checked by the harness at start)",
 ]
-ASSUMPTIONS = ["layout hypothesis of the property for the oracle: id-like names occur only as children of a project's workspace",
+ASSUMPTIONS = ["layout hypothesis of the property for the oracle: names of EXACTLY 32 hex characters occur only as children of a project's workspace",
                "oracle applies to queries whose lexical (abspath) and physical reading denote the same place; others are compared with the model only"]
 
 HEX = "0123456789abcdef"
@@ -60,13 +60,16 @@ def gen_children(rng, depth, budget, odd):
         else:
             out.append({"k": "file", "name": name + ".txt"})
     if odd and rng.random() < 0.5 and depth <= 4:
-        kind = rng.choice(["hexdir", "hex33", "hexpre", "legacy", "ver3", "hexfileproj"])
+        kind = rng.choice(["hexdir", "hex33", "hex33", "hexpre", "hexpre", "runmd5", "legacy", "ver3", "hexfileproj"])
         if kind == "hexdir":
             out.append({"k": "dir", "name": "".join(rng.choice(HEX) for _ in range(32)), "ch": gen_children(rng, depth + 1, budget, False)})
         elif kind == "hex33":
             out.append({"k": "dir", "name": "".join(rng.choice(HEX) for _ in range(rng.choice([33, 40, 64, 65]))), "ch": []})
         elif kind == "hexpre":
             out.append({"k": "dir", "name": rng.choice(["x", "z_", ""]) + "".join(rng.choice(HEX) for _ in range(32)) + rng.choice(["g", ".bak", "_1"]), "ch": []})
+        elif kind == "runmd5":
+            out.append({"k": "dir", "name": rng.choice(["run_", "sha-", "v"]) + "".join(rng.choice(HEX) for _ in range(32)),
+                        "ch": gen_children(rng, depth + 1, budget, False)})
         elif kind == "legacy":
             out.append({"k": "legacy", "name": "old", "ver": rng.choice([None, 0, 1, 2, 3]), "ch": gen_children(rng, depth + 1, budget, False)})
         elif kind == "ver3":
@@ -137,6 +140,12 @@ def _j(a, k="dir", ch=(), link=None, jobs=()):
     return j
 
 
+HEXISH = ["2d711642b726b04401627ca9fbac32f5c8530fb1903cc4db02258717921a4881",      # 64 hex (sha256)
+          "11f6ad8ec52a2984abaafd7c3b516503785c2072",                              # 40 hex (sha1)
+          "run_9dd4e461268c8034f5c8564e155c67a6",                                  # prefix + md5
+          "9dd4e461268c8034f5c8564e155c67a6.bak",                                  # id + suffix
+          "0123456789abcdef0123456789abcdef0"]                                     # 33 hex
+
 # hand-written trees that exercise every "Catches" item of the design
 FIXED = [
     # project nested in a job directory (the job dir itself), with its own jobs: two ids on one path
@@ -154,6 +163,14 @@ FIXED = [
         _p("outer", jobs=[_j(0, ch=[{"k": "dir", "name": "sub", "ch": []}]), _j(1, link="rel")], ch=[_p("nested", jobs=[_j(0)])]),
         {"k": "dir", "name": "noproj", "ch": []}]},
      "links": [{"seed": 3, "abs": False}, {"seed": 4, "abs": True}, {"seed": 12, "abs": False}], "qseed": 5, "odd": False},
+    # names that merely CONTAIN 32 hex characters (64-hex, 40-hex, 33-hex, run_<md5>, <id>.bak): ordinary
+    # sub-directories of a job, of a plain directory and of a project; each is also a queried leaf
+    {"top": {"k": "dir", "name": "", "ch": [
+        _p("p", jobs=[_j(1, ch=[{"k": "dir", "name": n, "ch": [{"k": "dir", "name": "deep", "ch": []}] if k == 0 else []}
+                                for k, n in enumerate(HEXISH)]), _j(2, link="rel", ch=[{"k": "dir", "name": HEXISH[2], "ch": []}])],
+           ch=[{"k": "dir", "name": HEXISH[1], "ch": []}]),
+        {"k": "dir", "name": "plain", "ch": [{"k": "dir", "name": n, "ch": []} for n in HEXISH[:3]]}]},
+     "links": [], "qseed": 6, "odd": False},
     # project without workspace directory, empty project
     {"top": {"k": "dir", "name": "", "ch": [_p("nows", nows=True, cfgv="extra"), _p("empty", cfgv="quoted")]},
      "links": [], "qseed": 3, "odd": False},
